@@ -142,6 +142,13 @@ def run(pid, tier):
             rep.violation('driver-failure', dict(mode='codes', rc=d['rc'], stderr=d['stderr'].decode(errors='replace')[-2000:]))
         else:
             validate(rep, pid, w + '/codes.ndjson', 'codes')
+        # the class of a code does not depend on which error texts are compiled in: the minimal error list
+        exe2 = lib.build('drv_status', ['drv_status.c'], config='fewerr')
+        d = lib.run_driver(exe2, ['codes', w + '/codes2.ndjson'])
+        if d['rc'] != 0:
+            rep.violation('driver-failure', dict(mode='codes', build='fewerr', rc=d['rc'], stderr=d['stderr'].decode(errors='replace')[-2000:]))
+        else:
+            validate(rep, pid, w + '/codes2.ndjson', 'codes-fewerr')
     suite_traces.validate(rep, pid + ':')      # hook traces of the repository's own test programs
     composition.validate(rep, pid, tier)
     regtree.validate(rep, pid, tier)           # the generic register tree in a USE_CUSTOM_REGISTERS build
